@@ -4,7 +4,7 @@ CONSTANTS
   MaxLen = 3
   KeyWithoutType = FALSE
   FirstIndexOnly = FALSE
-  NameSet = {"X", "W", "Name", "AName", "nosuch", "x", "Cust", "V"}
+  NameSet = {"X", "W", "Name", "AName", "nosuch", "x", "Cust", "V", "Uelan"}
 INVARIANTS
   CacheUnobservable
   Bounded
